@@ -188,7 +188,7 @@ template <class T> static void run_trunc(const char *name, uint64_t batch)
 #ifdef C09_VALGRIND
         Gen g{r, 60};
 #else
-        Gen g{r, r.chance(1, 30) ? 300000 : (r.chance(1, 4) ? 3000 : 120)};
+        Gen g{r, r.chance(1, vf::thorough() ? 200 : 30) ? 300000 : (r.chance(1, 4) ? 3000 : 120)};
 #endif
         T v = gen<T>(g);
         check_truncations<T>(name, v, r, (int)((batch + (uint64_t)i) & 1));
